@@ -353,6 +353,7 @@ class EigenSolve(Module):
     def _prepare(self, sorting_func=lambda W, Q: np.argsort(W), hermitian=None, nmodes=None, sigma=None, mode='normal'):
         self.sorting_fn = sorting_func
         self.is_hermitian = hermitian
+        self._user_hermitian = hermitian
         self.nmodes = nmodes
         self.sigma = sigma
         self.mode = mode
@@ -362,8 +363,11 @@ class EigenSolve(Module):
 
     def _response(self, A, *args):
         B = args[0] if len(args) > 0 else None
-        if self.is_hermitian is None:
-            self.is_hermitian = (matrix_is_hermitian(A) and (B is None or matrix_is_hermitian(B)))
+        if self._user_hermitian is None:  # Unless given by the user, detect again for every matrix
+            is_hermitian = (matrix_is_hermitian(A) and (B is None or matrix_is_hermitian(B)))
+            if is_hermitian != self.is_hermitian:
+                self.Ainv = None  # The solver for the shift-and-invert was chosen for another class of matrix
+            self.is_hermitian = is_hermitian
         self.is_sparse = matrix_is_sparse(A) and (B is None or matrix_is_sparse(B))
         self.adjoint_solvers_need_update = True
 
